@@ -3,7 +3,7 @@
 Engine E2 "conf"/log: a logs{} section is loaded by the real conf_read() (so the real hooks rebuild the routing),
 then one uniquely tagged message is emitted through the real log_message() for every facility of {f1, f2, f3} and
 every severity (fatal in a sub-fork, it terminates the process) and the destination files are read back.
-  sections   every set of <= 2 entries over facility {f1, f2, *} x 13 severity expressions (names, lists, ranges,
+  sections   every set of <= 2 entries over facility {f1, f2, *} x 16 severity expressions (names, lists, ranges,
              '*', and four invalid forms) x destinations {file:A, file:B, (file:A, file:B)}
   reloads    every ordered pair (thorough: triple) of sections of a sub-universe; messages are emitted after the
              last reload - the routing must be that of the last section only
@@ -15,7 +15,8 @@ from .. import common, build, conf as C
 
 SEV = ['debug', 'command', 'info', 'warning', 'error', 'fatal']
 FACS = ['f1', 'f2', 'f3']
-EXPRS = ['info', 'info,error', '>=warning', '>info', '<=command', '<info', '=error', '*', 'debug,>=error', 'foo', '>=foo', 'info,foo', None]   # None: key without a dot
+EXPRS = ['info', 'info,error', '>=warning', '>info', '<=command', '<info', '=error', '*', 'debug,>=error', '>=error,debug', '<command,error', '>warning,=debug,info',
+         'foo', '>=foo', 'info,foo', None]   # None: key without a dot
 DESTS = [('A',), ('B',), ('A', 'B')]
 LINE = re.compile(r'^\[\d\d:\d\d:\d\d \d\d/\d\d/\d{4}\] \(([^:()]+):([a-z]+)\) (.*)$')
 
@@ -52,7 +53,11 @@ def key_of(e):
     return ('%s.%s' % (fac, ex)) if ex is not None else fac + 'nodot'
 
 
+NOSECTION = 'no-logs-section'
+
 def section_text(sec):
+    if sec == NOSECTION:
+        return b'unrelated "setting"\n'      # a file without any logs section: every routing entry is gone
     o = ['logs {']
     for e in sec:
         fac, ex, d = e
@@ -65,6 +70,8 @@ def section_text(sec):
 def route(sec):
     """-> {(fac, sev index): set of files}"""
     r = {}
+    if sec == NOSECTION:
+        return r
     for fac, ex, d in sec:
         if ex is None:
             continue
@@ -129,6 +136,8 @@ def _task(srv, item):
 
 
 def sec_str(s):
+    if s == NOSECTION:
+        return '<file without logs section>'
     return '{' + '; '.join('"%s" -> %s' % (key_of(e), '+'.join(e[2])) for e in s) + '}'
 
 
@@ -148,7 +157,7 @@ def main(tier):
         sections += [t for t in itertools.combinations(sub, 3) if len({key_of(x) for x in t}) == 3]
     seqs = [(s,) for s in sections]
     # reload sequences
-    base = [(), (('f1', 'info', ('A',)),), (('f1', 'info', ('B',)),), (('f1', 'info', ('A', 'B')),), (('f1', '>=warning', ('A',)),), (('*', '*', ('B',)),),
+    base = [(), NOSECTION, (('f1', 'info', ('A',)),), (('f1', 'info', ('B',)),), (('f1', 'info', ('A', 'B')),), (('f1', '>=warning', ('A',)),), (('*', '*', ('B',)),),
             (('*', '>=error', ('A',)),), (('f2', '<=command', ('B',)),), (('f1', 'foo', ('A',)),), (('f2', None, ('A',)),),
             (('f1', 'info', ('A',)), ('*', '>=warning', ('B',))), (('f1', '*', ('A',)), ('f2', '*', ('B',))), (('*', 'debug,>=error', ('A', 'B')),),
             (('f1', '<info', ('A',)), ('f1', '>info', ('B',))), (('f2', '=error', ('A',)), ('*', 'info,error', ('A',)))]
